@@ -157,6 +157,10 @@ class PartitionBody(KafkaBase):
                         % (emits, hi_excl, hi_excl, lo, lo, hi_excl, lo)),
             Clause('C09.failed_watermark_query_changes_nothing', ['C09'], when='return',
                    text='implies(wm_failed, list(self.positions) == old(list(self.positions)) and list(out) == old(list(out)))'),
+            Clause('C09.reset_position_is_not_changed_while_partitions_are_being_examined', ['C09'], when='return',
+                   text="self.consumer_params['auto.offset.reset'] == old(self.consumer_params['auto.offset.reset'])",
+                   note='every partition of one pass is positioned with the same (configured) reset rule; the switch to earliest '
+                        'belongs after the whole pass'),
         ]
 
     def cover(self, outcomes):
